@@ -141,6 +141,10 @@ def static_part(prop):
             obs += eff.fr_state()
         elif fam == "FR-ID":
             obs += eff.fr_id()
+        elif fam == "LK-PAIR":
+            from static import linkpairs
+
+            obs += linkpairs.check(prog)
         elif fam == "SK-PAIR":
             from static import skeleton
 
